@@ -183,8 +183,11 @@ def rule_b1(ctx: Ctx) -> None:
         ctx.violation("C09-B1", rk, shl[0], f"rank uses bit(x, y) = {bit!r} while unrank's layout is x*{b_un!r} + y: rank and unrank disagree")
     # the constructor's assertion bounds the coordinates (0 <= c <= n) – needed for divmod to invert
     init = repo.need_method("MeshPatt", "__init__")
+    import re as _re
+
     txt = unparse(init.node)
-    if "0 <= coordinate[0] <= len(self.pattern)" in txt and "0 <= coordinate[1] <= len(self.pattern)" in txt:
+    m0 = _re.search(r"0 <= (\w+)\[0\] <= len\(self\.pattern\)", txt)
+    if m0 and f"0 <= {m0.group(1)}[1] <= len(self.pattern)" in txt:
         ctx.ok("C09-B1", init.where, "constructor asserts 0 <= x, y <= n for every shaded cell", init.node, init)
     else:
         ctx.note("C09-B1: constructor bound on cell coordinates not found (layout inverse assumes 0 <= y <= n)")
@@ -278,7 +281,16 @@ def rule_n1(ctx: Ctx) -> None:
             ctx.ok("C09-N1", wr.where, f"branch emits only {''.join(sorted(em))!r} – accepted by from_string", r, wr)
 
 
+GENERIC_FILES = ['permuta/patterns/perm.py', 'permuta/patterns/meshpatt.py']
+
+
 def variants():
+    from ..selftest import generic_silent
+
+    return _variants() + generic_silent(GENERIC_FILES)
+
+
+def _variants():
     from ..selftest import V, insert_stmt, reformat_only, rename_local, replace_expr, replace_stmt
 
     PE, MP = "permuta/patterns/perm.py", "permuta/patterns/meshpatt.py"
